@@ -145,7 +145,7 @@ partial def beqV : V → V → Bool
   | .map a, .map b => a.length == b.length && (a.zip b).all fun (p, q) => beqV p.1 q.1 && beqV p.2 q.2
   | _, _ => false
 
-def letters : List Char := "0123456789abc".toList
+def letters : List Char := "0123456789abcd".toList
 
 structure Al where
   vals : Array V := #[]
@@ -163,7 +163,10 @@ def Al.letter (al : Al) (v : V) : String :=
 def strK : List Nat := [107]          -- "k"
 def strId : List Nat := [105, 100]    -- "id"
 
-def wrapItem (m : Mode) (v : V) (idx : Nat) : V := mkMap m [(.str strK, v), (.str strId, .num (.u64 idx))]
+def strG : List Nat := [103]          -- "g"
+
+def wrapItem (m : Mode) (v : V) (idx : Nat) : V :=
+  mkMap m [(.str strK, v), (.str strId, .num (.u64 idx)), (.str strG, .num (.u64 (idx % 3)))]
 def bareItem (m : Mode) (idx : Nat) : V := mkMap m [(.str strId, .num (.u64 idx))]
 
 def idOf (m : Mode) (v : V) : String :=
@@ -193,6 +196,8 @@ def runFv (m : Mode) (al : Al) (f : List String) : String :=
   | ["sort", cs, rev, form, word] =>
     let wrap := form == "wrap"
     "ok:" ++ showItems m al wrap (sortV m (b cs) (b rev) (if wrap then some strK else none) (itemsOf m al (w word) wrap))
+  | ["sortm", cs, rev, word] =>
+    "ok:" ++ showItems m al true (sortMultiV m (b cs) (b rev) [strG, strK] (itemsOf m al (w word) true))
   | ["unique", cs, form, word] =>
     let wrap := form == "wrap"
     "ok:" ++ showItems m al wrap (uniqueV m lowerAscii (b cs) (if wrap then some strK else none) (itemsOf m al (w word) wrap))
